@@ -392,6 +392,7 @@ fn kind_name(k: Kind) -> &'static str {
         Kind::CasWeak => "casw",
         Kind::FetchAdd => "add",
         Kind::FetchSub => "sub",
+        Kind::Fence => "fence",
     }
 }
 
@@ -431,7 +432,11 @@ impl Hook for TheHook {
         if !g.active {
             return;
         }
-        let role = g.roles.classify(a.addr);
+        let role = if a.kind == Kind::Fence {
+            ("fence", [0, 0], crate::roles::VT::Raw)
+        } else {
+            g.roles.classify(a.addr)
+        };
         if role.2 == crate::roles::VT::NodePtr {
             g.roles.rescan();
         }
